@@ -90,3 +90,11 @@ Definition zisub (w : N) (a b : Z) : outcome Z :=
   if zin w (a - b)%Z then Val (a - b)%Z else Fault Overflow.
 (* a signed shift amount: negative = overflow (panic with overflow checks) *)
 Definition zshamt (z : Z) : outcome N := if Z.ltb z 0 then Fault Overflow else Val (Z.to_N z).
+
+(* `a < b` on Option<uN> (derived PartialOrd: None is the least element) *)
+Definition opt_ltb (a b : option N) : bool :=
+  match a, b with
+  | None, Some _ => true
+  | Some x, Some y => N.ltb x y
+  | _, None => false
+  end.
